@@ -488,7 +488,7 @@ def run_chains(args):
     Q, s = w['Q'], w['session']
     A, T = alphabet(), terminals()
     part = Part()
-    refuse = (CQLEngineException, QueryOperatorException, TypeError)
+    refuse = (CQLEngineException, QueryOperatorException)
     for prefix in prefixes:
         for n in range(nmin, nmax + 1):
             for rest in itertools.product(letters, repeat=n):
@@ -503,6 +503,10 @@ def run_chains(args):
                 except refuse as e:
                     part.count('refused_by_cqlengine')
                     continue
+                except Exception as e:
+                    part.violation('C37/raises/chain/%s' % type(e).__name__, 'building the query set %r raised %r' % (names, e),
+                                   {'chain': list(chain), 'terminal': 0, 'names': names})
+                    continue
                 for ti, (tname, tfn) in enumerate(T):
                     if long_only and tname not in LONG_TERMINALS:
                         continue
@@ -515,6 +519,12 @@ def run_chains(args):
                     except refuse as e:
                         part.count('refused_by_cqlengine')
                         part.outcome(('refused', tname, type(e).__name__))
+                        continue
+                    except HarnessError:
+                        raise
+                    except Exception as e:
+                        part.violation('C37/raises/%s/%s' % (tname.replace(' alone', ''), type(e).__name__),
+                                       '%r raised %r' % (names + [tname], e), case)
                         continue
                     part.count('chains')
                     calls = s.take()
@@ -684,7 +694,13 @@ def run_dml(args):
             name, fn, opts = F[i]
             fr = Fresh()
             s.take()
-            exp = fn(fr, None, opts)
+            try:
+                exp = fn(fr, None, opts)
+            except HarnessError:
+                raise
+            except Exception as e:
+                part.violation('C37/raises/dml/%s/%s' % (name.split('[')[0], type(e).__name__), '%s raised %r' % (name, e), {'dml': i, 'name': name})
+                continue
             calls = s.take()
             part.count('dml_cases')
             judge(part, 'dml/' + name.split('[')[0], {'dml': i, 'name': name}, calls, exp)
@@ -697,10 +713,17 @@ def run_dml(args):
                 fr = Fresh()
                 s.take()
                 b = BatchQuery()
-                exp = f1(fr, b, o1) + f2(fr, b, o2)
-                if s.take():
-                    raise HarnessError('a batched operation executed a statement before the batch ran: %s %s' % (n1, n2))
-                b.execute()
+                try:
+                    exp = f1(fr, b, o1) + f2(fr, b, o2)
+                    if s.take():
+                        raise HarnessError('a batched operation executed a statement before the batch ran: %s %s' % (n1, n2))
+                    b.execute()
+                except HarnessError:
+                    raise
+                except Exception as e:
+                    part.violation('C37/raises/batch/%s/%s' % (n2.split('[')[0], type(e).__name__), 'batch of %s and %s raised %r' % (n1, n2, e),
+                                   {'batch': [i, j], 'names': [n1, n2]})
+                    continue
                 calls = s.take()
                 if len(calls) != 1:
                     raise HarnessError('batch executed %d statements' % len(calls))
